@@ -12,7 +12,7 @@ corpus, thorough: 600000).  Two campaigns: one seeded with the checked-in contro
 the target; a mismatch writes /verif/replays/C03/fuzz-<sha>.json (replayable: `python -m pv.run C03 --replay`,
 sub-check pp_text) and makes the process exit 1.  Exit 0: no mismatch; 2: harness problem.
 
-Exceptions of parse() are "not accepted" (C03 quantifies over accepted texts); they are tallied by type.
+Exceptions of parse() are "not accepted" (C03 quantifies over accepted texts) and are ignored by the target.
 """
 
 import argparse
@@ -93,11 +93,7 @@ def campaign(name, seeds, runs, seed, max_len):
         os.chdir(work)
         argv = [sys.argv[0], corpus, f'-runs={runs}', f'-seed={seed}', f'-max_len={max_len}', '-print_final_stats=1', '-verbosity=0', '-timeout=30', '-rss_limit_mb=4096']
         atheris.Setup(argv, target)
-        try:
-            atheris.Fuzz()
-        finally:
-            print(f'[{name}] tally {dict(TALLY)}')
-            sys.stdout.flush()
+        atheris.Fuzz()  # does not return: libFuzzer exits the process itself
         os._exit(0)
     _, status = os.waitpid(pid, 0)
     found = glob.glob(os.path.join(work, 'crash-*'))
